@@ -19,7 +19,7 @@ import re as _re
 meta["demo_cmd"] = _re.sub(r"/tmp/mut2?-C\d+-out/\d+/", d + "/", meta["demo_cmd"])
 meta.update({"breaks_property": pid, "confirmed": {k: res[k] for k in ("applies", "existing_tests_pass_with_patch", "demo_fails_with_patch", "demo_passes_without_patch")},
              "what_i_ran": f"tools/seedtest.py {pid} <scratch worktree> <seed dir>: git apply; {meta.get('existing_tests_cmd')}; demo; VERIF_REPO=<worktree> ./check {pid}; revert; demo",
-             "check_result": {"rc": res["check_rc"], "lines": res["check_lines"], "detected": res["detected"],
+             "check_result": {"rc": res["check_rc"], "lines": res["check_lines"], "detected": res["detected"], "per_seed": res.get("per_seed"),
                               "concrete_replay": any(l.startswith("VIOLATION") and "no-failing-input-found" not in l for l in res["check_lines"])}})
 json.dump(meta, open(os.path.join(d, "meta.json"), "w"), indent=1)
 print("kept as", d)
